@@ -461,8 +461,6 @@ def close_leaked_h5():
     and tmpfs reuses inode numbers, so a leaked handle of a deleted file can
     make the creation of an unrelated new file fail.
     """
-    import gc
-    gc.collect()
     try:
         # manager server processes the library leaves running inherit open
         # HDF5 descriptors (and their file locks)
@@ -477,6 +475,12 @@ def close_leaked_h5():
         pass
     try:
         import h5py
+        if not h5py.h5f.get_obj_ids(types=h5py.h5f.OBJ_FILE):
+            return
+        # something is still open: first let unreachable iterators go
+        # (a full collection is slow, so only now), then close the rest
+        import gc
+        gc.collect()
         for fid in h5py.h5f.get_obj_ids(types=h5py.h5f.OBJ_FILE):
             try:
                 h5py.File(fid).close()
